@@ -754,3 +754,41 @@ package raft
 //@   at call Transport.AppendEntries#1 assert heartbeat_carries_no_commit_index: arg2.PrevLogEntry == 0 && arg2.PrevLogTerm == 0 &&
 //@              arg2.LeaderCommitIndex == 0 && len(arg2.Entries) == 0 && arg2.Term == s.currentTerm
 //@   loop 1 invariant notify_valid: s.notify != nil && (forall w *verifyFuture :: dom(s.notify, w) ==> w != nil && w.votes < MaxInt63)
+
+// ---------------------------------------------------------------------------
+// C10: start-up recovery (function-level slivers)
+
+//@ model CommitTrackingLogStore { staged uint64 }
+
+//@ interface CommitTrackingLogStore.GetCommitIndex()
+//@   modifies nothing
+//@   ensures  value: result1 == nil ==> result0 == this.staged
+
+//@ spec func stagedCommit(r *Raft) uint64 = cast(r.logs, CommitTrackingLogStore).staged
+
+//@ func (c *Config) getOrCreateLogger
+//@   trusted returns the configured logger or creates one (hclog); never nil
+//@   modifies nothing
+//@   ensures  nonnil: result != nil
+
+//@ func (r *Raft) restoreFromCommittedLogs
+//@   requires nonnil: r != nil && r.logs != nil && r.logger != nil && typeis(r.conf.v, Config)
+//@   requires fresh_start: r.commitIndex == 0
+//@   requires index_range: r.logs.last < MaxInt63
+//@   modifies r.commitIndex, r.lastApplied, sent(r.fsmMutateCh), allof("H.logFuture."), allof("CH.sent.error"), allof("CH.last.error"), allof("CH.closed"), allof("CH.sent.interface"), allof("CH.last.interface")
+//@   ensures  disabled_is_noop: !r.RestoreCommittedLogs ==> result == nil && r.commitIndex == old(r.commitIndex) && r.lastApplied == old(r.lastApplied)
+//@   ensures  commit_is_min: result == nil && r.RestoreCommittedLogs ==> r.commitIndex == min(stagedCommit(r), r.logs.last)
+//@   ensures  applied_up_to_commit: result == nil && r.RestoreCommittedLogs ==> r.lastApplied == max(old(r.lastApplied), r.commitIndex)
+//@   ensures  error_changes_nothing: result != nil ==> r.commitIndex == old(r.commitIndex) && r.lastApplied == old(r.lastApplied)
+//@   ensures  log_untouched: r.logs.has == old(r.logs.has) && r.logs.ent == old(r.logs.ent)
+
+//@ spec func durableTerm(s StableStore) uint64 = ite(s.hasu[content(keyCurrentTerm)], s.u64[content(keyCurrentTerm)], 0)
+
+//@ func NewRaft
+//@   requires nonnil: conf != nil && fsm != nil && logs != nil && stable != nil && snaps != nil && trans != nil
+//@   requires index_range: logs.last < MaxInt63
+//@   ensures  term_reloaded: result1 == nil ==> result0 != nil && result0.currentTerm == durableTerm(stable)
+//@   ensures  lastlog_is_store_tail: result1 == nil && logs.last > 0 ==> result0.lastLogIndex == logs.last && result0.lastLogTerm == logs.ent[logs.last].Term
+//@   ensures  empty_log_tail: result1 == nil && logs.last == 0 ==> result0.lastLogIndex == 0
+//@   ensures  starts_as_follower: result1 == nil ==> result0.state == Follower && result0.logs == logs && result0.stable == stable
+//@   loop 1 entry config_scan_covers_log: snapshotIndex < MaxUint64 ==> index == snapshotIndex + 1
